@@ -194,6 +194,18 @@ def random_case(rng):
         case["secs"] = [{"fixed": rng.randrange(0, 3)}, {"until": fsup.lit_pat("END")}]
         lines = [rng.choice(["END", "", "x "]) + "".join(rng.choice(pool) for _ in range(rng.randrange(0, 8))) for _ in range(rng.randrange(0, 10))]
     x = "\n".join(lines) + ("\n" if lines and rng.random() < 0.7 else "")
+    # characters that codecs / text layers are known to treat specially: a leading U+FEFF (BOM look-alike,
+    # legitimate content), U+FEFF elsewhere, NEL / LS / PS line-separator look-alikes, form feed, NUL
+    if enc in ("utf-8", "utf-16") and rng.random() < 0.25:
+        special = rng.choice(["\ufeff", "\ufeff", "\u2028", "\u2029", "\x85", "\x0c", "\x00", "\ufffe"])
+        where = rng.choice(["start", "start", "middle", "end"])
+        if where == "start":
+            x = special + x
+        elif where == "end":
+            x = x + special
+        else:
+            k = rng.randrange(0, len(x) + 1)
+            x = x[:k] + special + x[k:]
     case["x"] = codec.enc_str(x)
     return case
 
